@@ -134,6 +134,18 @@ def floatArith : Arith Float where
   share w total := goInt ((Float.ofInt w / Float.ofInt total) * 10000.0)
   mean a b := goInt ((Float.ofInt a + Float.ofInt b) / 2.0)
 
+/-- float64 arithmetic at the level of `Nat`: every rounding is `rne` (IEEE binary64 round to nearest even, written
+over `Nat` in Model/CodonOps.lean, independent of Lean's opaque `Float`), so the kernel can reason about it
+(Props/C18F64).  `mean`: both shares are integers in [0, 10000]; float64 adds such integers and halves the sum
+exactly, and `int(·)` truncates.  total = 0 is 0/0 as in the other instances.  The driver checks on every case
+that the implementation equals this instance too (bit for bit), next to Lean's `Float` instance. -/
+def f64Arith : Arith Rat where
+  below0 c := c < 0
+  above1 c := c > 1
+  cutWeight c := cutF64 c
+  share w total := if total = 0 then intIndefinite else shareF64 w total
+  mean a b := Int.tdiv (a + b) 2
+
 /-- `secondWeights` for one amino acid of the first table: for each first codon, every codon with the same
 triplet among the second table's amino acids with the same letter -/
 def secondWeights (t2 : Table) (a1 : AminoAcid) : List Int :=
